@@ -76,8 +76,8 @@ Definition raises_table (ft : string) : list string :=
   else if String.eqb ft "yaml" then
     ["yaml.scanner.ScannerError"; "yaml.parser.ParserError"; "yaml.composer.ComposerError";
      "yaml.constructor.ConstructorError"; "yaml.reader.ReaderError"]
-  else if String.eqb ft "xml" then ["xml.etree.ElementTree.ParseError"]
-  else if String.eqb ft "html" then ["xml.etree.ElementTree.ParseError"]
+  else if String.eqb ft "xml" then ["xml.etree.ElementTree.ParseError"; "builtins.LookupError"]
+  else if String.eqb ft "html" then ["xml.etree.ElementTree.ParseError"; "builtins.LookupError"]
   else if String.eqb ft "plist" then
     ["xml.parsers.expat.ExpatError"; "plistlib.InvalidFileException"; "builtins.ValueError";
      "builtins.IndexError"; "builtins.LookupError"]
@@ -89,20 +89,31 @@ Definition in_raises (c : c20_case) : bool :=
   | None => false
   end.
 
-(* ---- classes of the open findings (D13), as predicates on a case ---- *)
-Definition exn_class_is (c : c20_case) (k : string) : bool :=
-  match c_exn c with Some e => String.eqb (e_class e) k | None => false end.
+(* ---- classes of the open findings (D13): which (file type, loader exception class) pairs the pinned
+        handlers are known not to cover; the carve-out of C20_partial ---- *)
+(* D13(a): the JSON5 handler formats the caught exception with the format spec "!s": TypeError escapes *)
+Definition gap_json5 (ft cls : string) : bool := String.eqb ft "json5".
+(* D13(b): the plist handler catches only ExpatError *)
+Definition gap_plist (ft cls : string) : bool :=
+  String.eqb ft "plist" && negb (String.eqb cls "xml.parsers.expat.ExpatError").
+(* D13(c): the JSON handler catches only JSONDecodeError: a file that is not valid UTF-8 escapes *)
+Definition gap_json (ft cls : string) : bool :=
+  String.eqb ft "json" && String.eqb cls "builtins.UnicodeDecodeError".
+(* D13(d): the XML/HTML handler catches only ParseError: an unknown declared encoding escapes as LookupError *)
+Definition gap_xml (ft cls : string) : bool :=
+  (String.eqb ft "xml" || String.eqb ft "html") && String.eqb cls "builtins.LookupError".
+Definition known_gap (ft cls : string) : bool :=
+  gap_json5 ft cls || gap_plist ft cls || gap_json ft cls || gap_xml ft cls.
+
+(* the same classes as predicates on an observed case (what escaped is part of the class) *)
 Definition crashed_with (c : c20_case) (k : string) : bool :=
   match c_out c with Crash x => String.eqb x k | Exit _ _ _ => false end.
-
-(* D13(a): the JSON5 handler formats the ValueError with the format spec "!s": TypeError escapes *)
-Definition kf_json5_format_spec (c : c20_case) : bool :=
-  String.eqb (c_ft c) "json5" && is_some (c_exn c) && crashed_with c "builtins.TypeError".
-(* D13(b): the plist handler catches only ExpatError: any other listed loader exception escapes as is *)
-Definition kf_plist_uncaught (c : c20_case) : bool :=
-  String.eqb (c_ft c) "plist" && in_raises c && negb (exn_class_is c "xml.parsers.expat.ExpatError") &&
-  match c_exn c with Some e => crashed_with c (e_class e) | None => false end.
-(* D13(c): the JSON handler catches only JSONDecodeError: a file that is not valid UTF-8 escapes *)
-Definition kf_json_unicode (c : c20_case) : bool :=
-  String.eqb (c_ft c) "json" && exn_class_is c "builtins.UnicodeDecodeError" &&
-  crashed_with c "builtins.UnicodeDecodeError".
+Definition kf_case (gap : string -> string -> bool) (escaped : string -> string) (c : c20_case) : bool :=
+  match c_exn c with
+  | Some e => in_raises c && gap (c_ft c) (e_class e) && crashed_with c (escaped (e_class e))
+  | None => false
+  end.
+Definition kf_json5_format_spec : c20_case -> bool := kf_case gap_json5 (fun _ => "builtins.TypeError").
+Definition kf_plist_uncaught : c20_case -> bool := kf_case gap_plist (fun k => k).
+Definition kf_json_unicode : c20_case -> bool := kf_case gap_json (fun k => k).
+Definition kf_xml_encoding : c20_case -> bool := kf_case gap_xml (fun k => k).
